@@ -478,6 +478,12 @@ WITNESSES = [
     {"name": "mape-numerator-unshifted", "file": _M, "rule": "C20.c", "old": "        dy2 = numpy.sum(numpy.abs(predicted_y[1:] - expected_y[1:]))\n", "new": "        dy2 = numpy.sum(numpy.abs(predicted_y[:-1] - expected_y[1:]))\n"},
     {"name": "mape-removed-alias", "file": _M, "rule": "C20.c", "old": "numpy.inf", "new": "numpy.infty"},
 ]
+# witnesses of the rules added after the ninth round of independent changes
+WITNESSES += [
+    {"name": "padded-weights-zeroed-in-place", "file": _U, "rule": "C20.d", "old": "                new_y[first:, i - model.delay1] = y[i + 1 : i + nrow + 1]\n\n            new_weights = weights\n", "new": "                new_y[first:, i - model.delay1] = y[i + 1 : i + nrow + 1]\n\n            new_weights = weights\n            if new_weights is not None:\n                new_weights[:first] = 0\n"},
+]
+
+
 TWINS = [
     {"name": "plain-end-simplified", "file": _U, "old": "                end = y.shape[0] + i + model.delay1 - 1 - model.delay2 - model.past + 2\n                new_X[:, i + ncol] = y[i:end]\n            new_y = numpy.empty", "new": "                end = i + nrow + model.delay1 - 1\n                new_X[:, i + ncol] = y[i:end]\n            new_y = numpy.empty"},
 ]
